@@ -68,6 +68,13 @@ func (hs *clientHandshakeStateTLS13) decompressCert(m utlsCompressedCertificateM
 		return nil, fmt.Errorf("unadvertised algorithm (%d)", m.algorithm)
 	}
 
+	// The buffer for the decompressed message is allocated from the length the peer declared:
+	// bound it by the largest certificate message readHandshake accepts.
+	if m.uncompressedLength > maxHandshakeCertificateMsg {
+		c.sendAlert(alertBadCertificate)
+		return nil, fmt.Errorf("specified len (%d) exceeds maximum of %d bytes", m.uncompressedLength, maxHandshakeCertificateMsg)
+	}
+
 	switch CertCompressionAlgo(m.algorithm) {
 	case CertCompressionBrotli:
 		decompressed = brotli.NewReader(compressed)
